@@ -41,7 +41,8 @@ RENDER = {
     "readg": ['diag_log [if (isNil "gX") then {"nil"} else {gX}];', 'diag_log [uiNamespace getVariable ["gX", "nil"], missionNamespace getVariable ["gX", "nil"]];'],
     "loadcfg": ['configparse__ "class A { x = ""v%d""; };";'],
     "readcfg": ['diag_log [getText (configFile >> "A" >> "x"), isClass (configFile >> "A")];'],
-    "typeorder": ['help__ "+";', "diag_log cmdsvm__;", "diag_log (cmds__ select [0, 16]);"],
+    "typeorder": ['help__ "+";', "diag_log cmdsvm__;", "diag_log (cmds__ select [0, 16]);", 'help__ "in"; help__ "select";',
+                  "diag_log (cmds__ select [(count cmds__) - 60, 60]);", 'help__ "-"; help__ "isEqualTo";'],
     "collstr": ['diag_log (keys createHashMapFromArray [["a","1"],["b","2"],["c","3"],["d","4"]]);',
                 'gA = "a"; gB = "b"; gC = "c"; diag_log allVariables missionNamespace;',
                 'diag_log str createHashMapFromArray [["k1","x"],["k2","y"],[["a","b"],"z"]];'],
